@@ -53,7 +53,9 @@ CellView(n, o) ==
          (IF agn /\ ck = "NONE" /\ \E i \in 1..Len(c.ns) : NeedsClef(c.ns[i], o.cats) THEN [ok |-> FALSE, t |-> <<>>]
           ELSE LET x == ApplyEnc(IF agn THEN ChordAgnExt(c.ns, o.cats, ck) ELSE ChordExt(c.ns, o.cats), o.enc)
                IN [ok |-> TRUE, t |-> IF x = <<>> THEN Placeholder(cat) ELSE x, chord |-> TRUE, ns |-> c.ns, ck |-> ck])
-  ELSE LET x == ApplyEnc(TokenText(c), o.enc) IN [ok |-> TRUE, t |-> IF x = <<>> THEN Placeholder(cat) ELSE x]
+  ELSE LET x == ApplyEnc(TokenText(c), o.enc) IN
+       IF c.k = "err" THEN [ok |-> TRUE, t |-> IF x = <<>> THEN Placeholder(cat) ELSE x, err |-> TRUE]
+       ELSE [ok |-> TRUE, t |-> IF x = <<>> THEN Placeholder(cat) ELSE x]
 
 VisibleNodes(s, o) == SelectSeq(stages[s], LAMBDA n : Visible(n, o))
 RowViews(s, o) == LET vis == VisibleNodes(s, o) IN [i \in 1..Len(vis) |-> CellView(vis[i], o)]
